@@ -17,6 +17,8 @@ pub mod trunc;
 pub mod telemetry;
 #[path = "agent/logs.rs"]
 pub mod logs;
+#[path = "agent/ebpf.rs"]
+pub mod ebpf;
 
 pub fn main() {
     let engine = std::env::var("VERIF_ENGINE").unwrap_or_default();
@@ -28,6 +30,7 @@ pub fn main() {
         "trunc" => trunc::run(),
         "telemetry" => telemetry::run(),
         "logs" => logs::run(),
+        "ebpf" => ebpf::run(),
         _ => {
             eprintln!("unknown engine {:?}", engine);
             std::process::exit(2);
